@@ -207,14 +207,20 @@ class Exporter:
                     desc.append((tid, fs))
                 out.append((self.flowset(0, body, pad=rng.choice([0, 0, 0, 1, 2, 3]) if not self.conformant else 0), ("T", desc)))
             elif k < 0.4:
-                tid, scope, opts = self.v9_otemplate()
-                # V9 looks ids up in the options map first: keep the two id spaces apart in
-                # conformant streams (RFC 3954: an id names one template)
-                if self.conformant and tid in self.v9_t:
+                body = b""
+                desc = []
+                for _ in range(rng.choice([1, 1, 2, 3])):
+                    tid, scope, opts = self.v9_otemplate()
+                    # V9 looks ids up in the options map first: keep the two id spaces apart in
+                    # conformant streams (RFC 3954: an id names one template)
+                    if self.conformant and tid in self.v9_t:
+                        continue
+                    self.v9_o[tid] = (scope, opts)
+                    body += self.v9_otemplate_record(tid, scope, opts)
+                    desc.append((tid, scope, opts))
+                if not desc:
                     continue
-                self.v9_o[tid] = (scope, opts)
-                body = self.v9_otemplate_record(tid, scope, opts)
-                out.append((self.flowset(1, body, pad=(-len(body)) % 4 if self.conformant else None), ("O", [(tid, scope, opts)])))
+                out.append((self.flowset(1, body, pad=(-len(body)) % 4 if self.conformant else None), ("O", desc)))
             elif k < 0.5 and have_o:
                 tid = rng.choice(have_o)
                 scope, opts = self.v9_o[tid]
@@ -624,3 +630,17 @@ def ix_template_then_data(rng, ex, tid=None):
         _o, ofs = ex.ix_template(oid)
         dset = ex.ix_set(2, be(oid, 2) + be(len(ofs), 2) + b"".join(ex.ix_fspec(f) for f in ofs)) + dset
     return ipfix_msg([tset]), dset, tid, nrec
+
+
+def many_templates_case(n=1100, twins=True):
+    """more template ids than any plausible cache cap, then data for every id, on twin parsers"""
+    tmpl = b"".join(be(256 + i, 2) + be(1, 2) + be(1, 2) + be(4, 2) for i in range(n))
+    ops = ["P 0", "P 1"] if twins else ["P 0"]
+    pk = [v9_pkt([v9_fs(0, tmpl)])]
+    for lo in range(0, n, 400):
+        pk.append(v9_pkt([v9_fs(256 + i, be(i, 4)) for i in range(lo, min(n, lo + 400))]))
+    for p in pk:
+        ops.append("B 0 " + hexs(p))
+        if twins:
+            ops.append("B 1 " + hexs(p))
+    return Case("stress:many-template-ids", ops, {"twins": twins})
